@@ -1,6 +1,7 @@
 (* C04/Property.v — property theorems only. *)
 From Coq Require Import String List Bool.
-From Verif Require Import Base.Str C04.Model C04.Spec C04.Proofs.
+From Verif Require Import Base.Str Base.Py C04.Model C04.Spec C04.Proofs C04.Source.
+From VerifGen Require Import C04Src.
 
 (* C04: identity is never produced from a mis-addressed assertion — for every
    audience structure, destination, recipient, conversation info, endpoint
@@ -32,3 +33,9 @@ Theorem c04_complete : forall x d r,
   identity x = true.
 Proof. exact addressed_to_me_accepted. Qed.
 Print Assumptions c04_complete.
+
+(* tie to the source TEXT: response.for_me as translated from /repo's current source on this run
+   (coq/gen/C04Src.v, harness/py2coq.py) computes the model's for_me on every Conditions element *)
+Theorem c04_source_for_me : forall rs me, src_for_me (enc_conditions rs) (PStr me) = PBool (for_me rs me).
+Proof. exact src_for_me_is_model. Qed.
+Print Assumptions c04_source_for_me.
